@@ -260,7 +260,9 @@ class Array:
         raise ValueError("position out of parity")
 
     # ---- commands
-    BASE_FLAGS = ["--test-skip-device", "--test-skip-self", "--test-force-order-alpha", "--no-warnings",
+    # --test-skip-multi-scan: the data disks are scanned one after the other (with parallel scan threads the result of the
+    # copy detection can depend on thread timing: finding F10); C13 exercises the parallel scan on purpose
+    BASE_FLAGS = ["--test-skip-device", "--test-skip-self", "--test-force-order-alpha", "--test-skip-multi-scan", "--no-warnings",
                   "-q", "-q", "-q"]
 
     def run(self, cmd, *args, rules=None, trace=False, trace_reads=False, now=None, timeout=60, conf=None,
